@@ -470,4 +470,32 @@ example : (runN genCfg threeLevelTopo St.init threeLevelTrace).map (fun s =>
      (s.inst 0).bad || (s.inst 1).bad || (s.inst 2).bad, liveHeap (s.inst 0) + liveHeap (s.inst 1) + liveHeap (s.inst 2))) =
     some (true, some (some 5), some none, false, 1) := by decide
 
+/-! ## fixed-extent mappings
+
+The ledger treats the stack mapping as one resource with one extent: `hMmap true` makes `stack` live, the thread's own
+`munmap(addr, len)` — the very pair the mmap returned / was asked for — releases *all* of it.  That is the kernel's
+behaviour only for mappings whose extent nothing but munmap / mremap changes: private anonymous memory at an address
+the kernel chose.  It is not for `MAP_GROWSDOWN` (the kernel extends the area downwards on a fault just below it: the
+part that grew is not covered by `munmap(addr, len)` and stays mapped for ever), for `MAP_HUGETLB` / `MAP_HUGE_*`
+(length rounded up to the huge page size), for `MAP_FIXED` / `MAP_FIXED_NOREPLACE` (the address is the caller's, an
+existing mapping may be replaced) or for shared / file mappings.  So the flag word of the stack mmap — re-extracted from
+the source on every run (`Gen.Thread.stackMapFlags`), and compared with the flag word of every stack mmap the running
+code issues — must lie inside the set below.  (That no mremap / brk ever touches a stack range, and that each stack is
+unmapped with exactly its own (addr, len), is observed on every run by the probe's oracles.) -/
+
+/-- MAP_PRIVATE, MAP_ANONYMOUS and the flags that change neither address choice nor extent:
+MAP_LOCKED, MAP_NORESERVE, MAP_POPULATE, MAP_NONBLOCK, MAP_STACK (a no-op hint on Linux) -/
+abbrev fixedExtentFlags : Nat := 0x2 ||| 0x20 ||| 0x2000 ||| 0x4000 ||| 0x8000 ||| 0x10000 ||| 0x20000
+
+def fixedExtent (f : Nat) : Bool :=
+  (f ||| fixedExtentFlags == fixedExtentFlags) && (f &&& 0x2 == 0x2) && (f &&& 0x20 == 0x20)
+
+/-- **the stack is a fixed-extent mapping**: private, anonymous, kernel-chosen address, no flag under which the kernel
+may change what `mmap(len)` mapped -/
+theorem gen_stack_mapping_fixed_extent : fixedExtent Gen.Thread.stackMapFlags = true := by decide
+
+example : fixedExtent 0x22 = true ∧ fixedExtent 0x20022 = true := by decide
+/-- MAP_GROWSDOWN (0x100), MAP_HUGETLB (0x40000), MAP_FIXED (0x10), MAP_SHARED (0x1) are outside -/
+example : fixedExtent 0x20122 = false ∧ fixedExtent 0x40022 = false ∧ fixedExtent 0x32 = false ∧ fixedExtent 0x21 = false := by decide
+
 end TinyVerif.Thread
